@@ -15,7 +15,8 @@ RULE = ('PlayingPhase.available_cards on random hands of every size 0..13 x ever
         'set, the card returned must be in it). distinct = distinct (hand, led card) / (board, played set, op).')
 REQUIRED_COUNTERS = {t: ['avail_void', 'avail_follow', 'avail_lead', 'random_play', 'random_play_from_dummy'] for t in ('quick', 'thorough')}
 SHARDS = {'quick': 1, 'thorough': 8}
-TRUSTED = ['random.choice returns an element of the list it is given (the theorem is for every choice function)']
+TRUSTED = ['the MiniPy semantics (Model/MiniPy.lean: value semantics, no aliasing) and the code translator (harness/translate_py.py), validated on every run by executing the translated program next to the real code (counters translated_*)',
+           'random.choice returns an element of the list it is given (the theorem is for every choice function)']
 ASSUMPTIONS = ['CPython set comprehension semantics']
 
 
